@@ -30,7 +30,11 @@ func mergeMaps(left, right map[string]interface{}) map[string]interface{} {
 				continue
 			}
 
-			left[key] = rightVal
+			// a null never replaces what is there already: the maps are merged in the
+			// order the services answered, which must not decide the outcome
+			if rightVal != nil {
+				left[key] = rightVal
+			}
 		} else {
 			left[key] = rightVal
 		}
